@@ -59,6 +59,8 @@ type c11Case struct {
 	Rounds []round `json:"rounds"`
 	// Log: Info.DebugLogPackages - every package received is printed
 	Log bool `json:"debug_log_packages,omitempty"`
+	// Logical: the responses arrive on a logical channel of the connection instead of the main one
+	Logical bool `json:"logical_channel,omitempty"`
 }
 
 type event struct {
@@ -83,13 +85,47 @@ func runCase(c c11Case) (f *vh.Failure) {
 	}()
 	bg, cancel := context.WithCancel(context.Background())
 	defer cancel()
-	conn, _, err := tds.VerifNewConn(bg, peer.NewPipe(), &tds.Info{ChannelPackageQueueSize: 4096, DebugLogPackages: c.Log}, false)
+	pipe := peer.NewPipe()
+	conn, readerDone, err := tds.VerifNewConn(bg, pipe, &tds.Info{ChannelPackageQueueSize: 4096, DebugLogPackages: c.Log, PacketReadTimeout: 5}, c.Logical)
 	if err != nil {
 		vh.HarnessBug("VerifNewConn: %v", err)
 	}
 	ch, err := conn.NewChannel()
 	if err != nil {
 		vh.HarnessBug("NewChannel: %v", err)
+	}
+	if c.Logical {
+		// the responses arrive on a logical channel (the reader is only needed for its setup)
+		defer func() {
+			cancel()
+			pipe.Close()
+			go func() { defer func() { recover() }(); conn.Close() }()
+			select {
+			case <-readerDone:
+			case <-time.After(3 * time.Second):
+			}
+		}()
+		type res struct {
+			ch  *tds.Channel
+			err error
+		}
+		rch := make(chan res, 1)
+		go func() { l, err := conn.NewChannel(); rch <- res{l, err} }()
+		ps, _, err := pipe.WaitMessage(0, 3*time.Second)
+		if err != nil || len(ps) != 1 {
+			return vh.Failf("C11/setup", "no SETUP packet for the logical channel: %v", err)
+		}
+		pipe.Feed(rc.Packet{Type: rc.BufProtAck, Channel: ps[0].Channel, Status: rc.StatEOM}.Bytes())
+		select {
+		case r := <-rch:
+			if r.err != nil {
+				return vh.Failf("C11/setup", "NewChannel (logical): %v", r.err)
+			}
+			ch = r.ch
+		case <-time.After(3 * time.Second):
+			return vh.Failf("C11/setup", "NewChannel (logical) did not return after the acknowledgement")
+		}
+		vh.Label("responses-on-a-logical-channel")
 	}
 	var mu sync.Mutex
 	var log []event
@@ -447,6 +483,7 @@ func TestHooks(t *testing.T) {
 			c.Rounds = append(c.Rounds, r)
 		}
 		c.Log = rapid.IntRange(0, 3).Draw(rt, "log") == 0
+		c.Logical = rapid.IntRange(0, 3).Draw(rt, "logical") == 0
 		if n == 1 && len(fmt.Sprint(c)) < 700 {
 			vh.Sample("history", c)
 		}
